@@ -28,6 +28,9 @@ func Yield(string) {}
 // BeforeLock is called right before a blocking lock acquisition.
 func BeforeLock(interface{}, bool) {}
 
+// BeforeTry is BeforeLock for any lock: try reports whether the lock could be taken right now.
+func BeforeTry(func() bool) {}
+
 // WillSpawn is called by the parent right before a `go` statement.
 func WillSpawn() uint64 { return 0 }
 
